@@ -1018,6 +1018,11 @@ impl<R: Read> RdbReader<R> {
                             }
                         }
                         
+                        // A stream without entries is still a stream
+                        if !storage.exists(db, &key)? {
+                            storage.set_value(db, key.clone(), Value::Stream(crate::storage::stream::Stream::new()), None)?;
+                        }
+                        
                         if let Some(ttl) = ttl {
                             storage.expire(db, &key, remaining(ttl))?;
                         }
